@@ -335,7 +335,7 @@ pub fn run_case(ctx: &Ctx, s: &SaveState, rx: Receiver, verbose: bool) -> u64 {
         Some(r) => r,
         None => &mut saver,
     };
-    let res = std::panic::catch_unwind(std::panic::AssertUnwindSafe(|| target.load_snapshot(Snapshot::Sna(VAsset::new(file.clone()).chunked([0usize, 1, 2, 3, 7, 127, 128, 129][(s.latch as usize + s.sp as usize + rx as usize) % 8])))));
+    let res = std::panic::catch_unwind(std::panic::AssertUnwindSafe(|| target.load_snapshot(Snapshot::Sna(VAsset::new(file.clone()).chunked([0usize, 1, 2, 3, 7, 127, 128, 129][(s.latch as usize + s.sp as usize + rx as usize) % 8]).eof_as_zero((s.border as usize + rx as usize) % 2 == 1)))));
     match res {
         Ok(Ok(())) => {}
         Ok(Err(e)) => {
